@@ -1043,6 +1043,11 @@ def run(ctx) -> dict:
     r6 = r05_8(ctx, counts)
     r6.title = 'NO-MEMO-OF-LAZY-SNAPSHOT (R02.6 = R05.9)'
     results.append(r6)
+    from .c05_purity import r05_11
+    r9 = r05_11(ctx, counts)
+    r9.title = ('ATTRIBUTE-MEMO-IGNORES-PARAMETER (R02.9 = R05.11: a document node cached on the '
+                'tree is not handed to a context that needs another linkage)')
+    results.append(r9)
     return {
         'results': results, 'counts': counts,
         'explanation':
